@@ -5,6 +5,7 @@ import ScrapliProps.C01Platform
 import ScrapliProps.C01PlatformXR
 import ScrapliProps.C01PlatformEOS
 import ScrapliProps.C01PlatformNX
+import ScrapliProps.C01PlatformJunos
 import ScrapliProps.C02DecorCheck
 open Scrapli Scrapli.Chan
 
@@ -142,6 +143,7 @@ def handleLine (line : String) : String :=
     match Hex.decode ph, Hex.decode dh with
     | some p, some d => if decorOK p d then "1" else "0"
     | _, _ => "bad-op"
+  | ["linep", "junos", h] => match Hex.decode h with | some b => (if junosP b then "1" else "0") | none => "bad-op"
   | ["linep", "nxos", h] => match Hex.decode h with | some b => (if nxosP b then "1" else "0") | none => "bad-op"
   | ["linep", "eos", h] => match Hex.decode h with | some b => (if eosP b then "1" else "0") | none => "bad-op"
   | ["linep", "iosxr", h] => match Hex.decode h with | some b => (if iosxrP b then "1" else "0") | none => "bad-op"
